@@ -97,7 +97,7 @@ def run(ctx):
            keep=lambda o: "processes" in o.construct or "model-complete" in o.construct or o.verdict != "HOLDS")
     _reuse(ctx, "C10.R9", [c07.r7], "a raising subscriber does not abort the loop over the records of a frame: the entities listed after it are still updated (C07.R7)")
     _reuse(ctx, "C10.R8", [status_decoders], "the records the object model stores are decoded as the vendor defines (layout, code tables, affine readings: C05.R1-R3), so an attribute equals the protocol reading of the frame",
-           keep=lambda o: o.rule in ("C05.R1", "C05.R2", "C05.R3") or (o.verdict != "HOLDS" and "not-available" not in o.construct and o.rule != "C05.R4"))
+           keep=lambda o: o.rule in ("C05.R1", "C05.R2", "C05.R3") or "defined-codes-are-values" in o.construct or (o.verdict != "HOLDS" and "not-available" not in o.construct and o.rule != "C05.R4"))
     from . import c11
     from .common import reuse
 
